@@ -1,13 +1,45 @@
-// C12 correspondence driver: Recency + Registry<Key, GenerationalAtomicStorage> with a mock clock.
+// C12 correspondence driver: Recency + Registry<Key, GenerationalStorage<HookStorage>> with a mock clock.
 // stdin: one case per line  `<mask 0..7> <timeout ticks | -> | <op> <op> ...`
 //   ops: U<c|g|h><key>:<v>   A<ticks>   O<c|g|h><key>
-// stdout: one line per case, one token per op: u | a | x | d | k:<gen>:<v,v,..>
+//        S<c|g|h><key>:<v>[<inner>,<inner>,..]   an update IN FLIGHT through a handle: the handle is obtained
+//        (get_or_create), then the update is started and, inside the storage operation -- i.e. inside
+//        Generational::with_increment's f(&inner), before the value is written -- the inner ops (O.. / A..)
+//        run; then the update completes.
+// stdout: one line per case, one token per (flattened) op: u | a | x | d | k:<gen>:<v,v,..>
 use metrics::{CounterFn, GaugeFn, HistogramFn, Key};
-use metrics_util::registry::{GenerationalAtomicStorage, Recency, Registry};
-use metrics_util::{MetricKindMask};
+use metrics_util::registry::{GenerationalStorage, Recency, Registry, Storage};
+use metrics_util::storage::AtomicBucket;
+use metrics_util::MetricKindMask;
+use std::cell::RefCell;
 use std::io::{BufRead, Write};
-use std::sync::atomic::Ordering;
+use std::sync::atomic::{AtomicU64, Ordering};
+use std::sync::Arc;
 use std::time::Duration;
+
+thread_local! { static HOOK: RefCell<Option<Box<dyn FnOnce()>>> = RefCell::new(None); }
+fn run_hook() { let h = HOOK.with(|h| h.borrow_mut().take()); if let Some(f) = h { f(); } }
+
+#[derive(Clone)] struct HC(Arc<AtomicU64>);
+#[derive(Clone)] struct HG(Arc<AtomicU64>);
+#[derive(Clone)] struct HH(Arc<AtomicBucket<f64>>);
+impl CounterFn for HC {
+    fn increment(&self, v: u64) { run_hook(); self.0.fetch_add(v, Ordering::AcqRel); }
+    fn absolute(&self, v: u64) { run_hook(); self.0.fetch_max(v, Ordering::AcqRel); }
+}
+impl GaugeFn for HG {
+    fn increment(&self, v: f64) { run_hook(); let _ = self.0.fetch_update(Ordering::AcqRel, Ordering::Relaxed, |c| Some((f64::from_bits(c) + v).to_bits())); }
+    fn decrement(&self, v: f64) { run_hook(); let _ = self.0.fetch_update(Ordering::AcqRel, Ordering::Relaxed, |c| Some((f64::from_bits(c) - v).to_bits())); }
+    fn set(&self, v: f64) { run_hook(); self.0.store(v.to_bits(), Ordering::Release); }
+}
+impl HistogramFn for HH { fn record(&self, v: f64) { run_hook(); self.0.push(v); } }
+struct HookStorage;
+impl Storage<Key> for HookStorage {
+    type Counter = HC; type Gauge = HG; type Histogram = HH;
+    fn counter(&self, _: &Key) -> HC { HC(Arc::new(AtomicU64::new(0))) }
+    fn gauge(&self, _: &Key) -> HG { HG(Arc::new(AtomicU64::new(0))) }
+    fn histogram(&self, _: &Key) -> HH { HH(Arc::new(AtomicBucket::new())) }
+}
+type Reg = Registry<Key, GenerationalStorage<HookStorage>>;
 
 fn mask_of(bits: u8) -> MetricKindMask {
     let mut m = MetricKindMask::NONE;
@@ -18,9 +50,49 @@ fn mask_of(bits: u8) -> MetricKindMask {
 }
 
 fn key_of(id: &str) -> Key {
-    // vary the construction path with the id (equal keys built differently are C03/C06's business)
     let n: u64 = id.parse().unwrap();
     if n % 2 == 0 { Key::from_name(format!("k{}", n)) } else { Key::from_parts(format!("k{}", n), Vec::<metrics::Label>::new()) }
+}
+
+fn gen_n(g: metrics_util::registry::Generation) -> u64 {
+    let s = format!("{:?}", g);
+    s.trim_start_matches("Generation(").trim_end_matches(')').parse().unwrap()
+}
+
+struct Ctx { registry: &'static Reg, recency: &'static Recency<Key>, mock: Arc<quanta::Mock> }
+
+fn observe(cx: &Ctx, k: &str, id: &str) -> String {
+    let key = key_of(id);
+    let (registry, recency) = (cx.registry, cx.recency);
+    match k {
+        "c" => match registry.get_counter(&key) {
+            None => "x".to_string(),
+            Some(h) => { let g = h.get_generation();
+                if !recency.should_store_counter(&key, g, registry) { "d".into() }
+                else { format!("k:{}:{}", gen_n(g), h.get_inner().0.load(Ordering::Acquire)) } }
+        },
+        "g" => match registry.get_gauge(&key) {
+            None => "x".to_string(),
+            Some(h) => { let g = h.get_generation();
+                if !recency.should_store_gauge(&key, g, registry) { "d".into() }
+                else { format!("k:{}:{}", gen_n(g), f64::from_bits(h.get_inner().0.load(Ordering::Acquire)) as u64) } }
+        },
+        _ => match registry.get_histogram(&key) {
+            None => "x".to_string(),
+            Some(h) => { let g = h.get_generation();
+                if !recency.should_store_histogram(&key, g, registry) { "d".into() }
+                else { let d = h.get_inner().0.data(); let s: f64 = d.iter().sum(); format!("k:{}:{},{}", gen_n(g), d.len(), s as u64) } }
+        },
+    }
+}
+
+fn simple(cx: &Ctx, tok: &str) -> String {
+    let (c, rest) = tok.split_at(1);
+    match c {
+        "A" => { cx.mock.increment(rest.parse::<u64>().unwrap()); "a".into() }
+        "O" => { let (k, id) = rest.split_at(1); observe(cx, k, id) }
+        _ => panic!("bad inner op {}", tok),
+    }
 }
 
 fn run_case(line: &str) -> String {
@@ -29,13 +101,15 @@ fn run_case(line: &str) -> String {
     let mask = mask_of(hs.next().unwrap().parse().unwrap());
     let timeout = match hs.next().unwrap() { "-" => None, t => Some(Duration::from_nanos(t.parse().unwrap())) };
     let (clock, mock) = quanta::Clock::mock();
-    let registry: Registry<Key, GenerationalAtomicStorage> = Registry::new(GenerationalAtomicStorage::atomic());
-    let recency: Recency<Key> = Recency::new(clock, mask, timeout);
+    // leaked per case: the in-flight hook needs 'static access (a few hundred bytes per case)
+    let registry: &'static Reg = Box::leak(Box::new(Registry::new(GenerationalStorage::new(HookStorage))));
+    let recency: &'static Recency<Key> = Box::leak(Box::new(Recency::new(clock, mask, timeout)));
+    let cx = Arc::new(Ctx { registry, recency, mock });
     let mut out: Vec<String> = Vec::new();
     for tok in ops.split_whitespace() {
         let (c, rest) = tok.split_at(1);
         match c {
-            "A" => { mock.increment(rest.parse::<u64>().unwrap()); out.push("a".into()); }
+            "A" | "O" => out.push(simple(&cx, tok)),
             "U" => {
                 let (k, rest) = rest.split_at(1);
                 let (id, v) = rest.split_once(':').unwrap();
@@ -48,51 +122,31 @@ fn run_case(line: &str) -> String {
                 }
                 out.push("u".into());
             }
-            "O" => {
-                let (k, id) = rest.split_at(1);
+            "S" => {
+                let (k, rest) = rest.split_at(1);
+                let (idv, inner) = rest.split_once('[').unwrap();
+                let inner = inner.trim_end_matches(']').to_string();
+                let (id, v) = idv.split_once(':').unwrap();
                 let key = key_of(id);
-                let tok = match k {
-                    "c" => match registry.get_counter(&key) {
-                        None => "x".to_string(),
-                        Some(h) => {
-                            let g = h.get_generation();
-                            if !recency.should_store_counter(&key, g, &registry) { "d".into() }
-                            else { format!("k:{}:{}", gen_n(g), h.get_inner().load(Ordering::Acquire)) }
-                        }
-                    },
-                    "g" => match registry.get_gauge(&key) {
-                        None => "x".to_string(),
-                        Some(h) => {
-                            let g = h.get_generation();
-                            if !recency.should_store_gauge(&key, g, &registry) { "d".into() }
-                            else { format!("k:{}:{}", gen_n(g), f64::from_bits(h.get_inner().load(Ordering::Acquire)) as u64) }
-                        }
-                    },
-                    _ => match registry.get_histogram(&key) {
-                        None => "x".to_string(),
-                        Some(h) => {
-                            let g = h.get_generation();
-                            if !recency.should_store_histogram(&key, g, &registry) { "d".into() }
-                            else {
-                                let d = h.get_inner().data();
-                                let s: f64 = d.iter().sum();
-                                format!("k:{}:{},{}", gen_n(g), d.len(), s as u64)
-                            }
-                        }
-                    },
-                };
-                out.push(tok);
+                let v: u64 = v.parse().unwrap();
+                let inner_out: Arc<std::sync::Mutex<Vec<String>>> = Arc::new(std::sync::Mutex::new(Vec::new()));
+                let (cx2, io2) = (cx.clone(), inner_out.clone());
+                let hook: Box<dyn FnOnce()> = Box::new(move || {
+                    for t in inner.split(',').filter(|t| !t.is_empty()) { let r = simple(&cx2, t); io2.lock().unwrap().push(r); }
+                });
+                out.push("u".into()); // Register
+                match k {
+                    "c" => { let h = registry.get_or_create_counter(&key, |c| c.clone()); HOOK.with(|x| *x.borrow_mut() = Some(hook)); CounterFn::increment(&h, v); }
+                    "g" => { let h = registry.get_or_create_gauge(&key, |g| g.clone()); HOOK.with(|x| *x.borrow_mut() = Some(hook)); GaugeFn::set(&h, v as f64); }
+                    _ => { let h = registry.get_or_create_histogram(&key, |h| h.clone()); HOOK.with(|x| *x.borrow_mut() = Some(hook)); HistogramFn::record(&h, v as f64); }
+                }
+                out.extend(inner_out.lock().unwrap().drain(..));
+                out.push("u".into()); // Complete
             }
             _ => panic!("bad op {}", tok),
         }
     }
     out.join(" ")
-}
-
-fn gen_n(g: metrics_util::registry::Generation) -> u64 {
-    // Generation's field is private; its Debug form is `Generation(n)`
-    let s = format!("{:?}", g);
-    s.trim_start_matches("Generation(").trim_end_matches(')').parse().unwrap()
 }
 
 fn main() {
